@@ -342,7 +342,7 @@ func checkC16(c *Ctx) {
 						if len(tk) > 1 {
 							ident = tk[1]
 						}
-						if k > 0 && (op == "compare" || op == "compare_var_to_value" || op == "switch") {
+						if sp, known := spans[ident]; (!known || sp.lo <= 0) && k > 0 && (op == "compare" || op == "compare_var_to_value" || op == "switch") {
 							// an AutoVar operand: the command is the line before the marker
 							pv := splitToks(strings.TrimSpace(lines[k-1]))
 							if len(pv) > 0 && strings.HasPrefix(pv[0], "autoq") {
